@@ -1123,6 +1123,41 @@ Lemma cropped_next_total s : 0 <= cs_x s <= 4294967294 -> 0 <= cs_y s -> cs_h s 
 Proof. intros. unfold cropped_next_ok. sites; zb; rng. Qed.
 
 (* =========================================================================================== *)
+(* documented panics and constant indices: exact preconditions                                   *)
+(* =========================================================================================== *)
+Lemma point_index_iff idx : point_index_ok idx = true <-> 0 <= idx < 2.
+Proof. unfold point_index_ok, index_ok. rewrite andb_true_iff, Z.leb_le, Z.ltb_lt. tauto. Qed.
+Lemma from_array2_total : from_array2_ok = true.
+Proof. reflexivity. Qed.
+Lemma tri_from_slice_iff len : tri_from_slice_ok len = true <-> len = 3.
+Proof. unfold tri_from_slice_ok. apply Z.eqb_eq. Qed.
+Lemma sorted_clockwise_total p1 p2 p3 : ds_point p1 -> ds_point p2 -> ds_point p3 -> sorted_clockwise_ok p1 p2 p3 = true.
+Proof. intros. unfold sorted_clockwise_ok. rewrite area_doubled_total by assumption. reflexivity. Qed.
+(* the inner corner of the join is bounded by hypothesis (OPEN: derive it; the proved join point bound is 25921801) *)
+Lemma is_collapsed_step_total um i opposite inner : 4294967295 <= um -> 0 <= i < 3 -> edge_line opposite ->
+  pbound 131072 inner -> is_collapsed_step_ok um i opposite inner = true.
+Proof.
+  intros Hu Hi He [? ?]. pose proof (edge_lbound _ He) as Hl. unfold is_collapsed_step_ok.
+  rewrite (from_line_total _ He). unfold le_point_distance_ok.
+  assert (D : dot_product_ok inner (le_normal opposite) = true).
+  { apply (dot_product_total 131072 3600); try lia; [unfold pbound; lia | apply le_normal_bound; assumption]. }
+  rewrite D.
+  pose proof (le_distance_bound _ Hl). pose proof (le_normal_bound _ Hl) as [? ?].
+  unfold dot_product.
+  pose proof (mul_bound (px inner) (px (le_normal opposite)) 131072 3600).
+  pose proof (mul_bound (py inner) (py (le_normal opposite)) 131072 3600).
+  unfold index_ok. assert (Hc : i = 0 \/ i = 1 \/ i = 2) by lia.
+  destruct Hc as [Hc|[Hc|Hc]]; subst i; cbn [andb]; sites; rng.
+Qed.
+Lemma image_new_const_iff um w h bpp len : 4294967295 <= um -> ds_ext w -> ds_ext h -> ds_bpp bpp ->
+  (image_new_const_ok um w h bpp len = true <-> len = bytes_per_row w bpp * h).
+Proof.
+  intros. unfold image_new_const_ok. rewrite image_new_total by assumption. cbn [andb]. apply Z.eqb_eq.
+Qed.
+Lemma with_angle_total is_180 c s : - 1025 <= c <= 1025 -> - 1025 <= s <= 1025 -> with_angle_ok is_180 c s = true.
+Proof. intros. unfold with_angle_ok, rotate_90_ok, normal_vector_scale. cbn [py]. destruct is_180; rng. Qed.
+
+(* =========================================================================================== *)
 (* The tie: every function of the regenerated site table is modelled against its current skeleton, *)
 (* literal-only, or explicitly unmodelled (reflection over Gen/ArithSites.v)                       *)
 (* =========================================================================================== *)
